@@ -69,6 +69,7 @@ type yVFS struct{ in files.VFS }
 func (v yVFS) Remove(p string) error    { yield(); defer yield(); return v.in.Remove(p) }
 func (v yVFS) RemoveDir(p string) error { yield(); defer yield(); return v.in.RemoveDir(p) }
 func (v yVFS) Stat(p string) (os.FileInfo, error) {
+	gatePoint("vfs.Stat")
 	yield()
 	defer yield()
 	return v.in.Stat(p)
